@@ -81,8 +81,20 @@ def current_scheduler():
     return _SCHED
 
 
+try:
+    import dill as _dill
+except Exception:  # pragma: no cover
+    _dill = None
+
+
 def _roundtrip(x):
-    return pickle.loads(pickle.dumps(x))
+    """What crossing a process boundary does to a value (pathos pools pickle with dill)."""
+    try:
+        return pickle.loads(pickle.dumps(x))
+    except Exception:
+        if _dill is None:
+            raise
+        return _dill.loads(_dill.dumps(x))
 
 
 class SchedPool(object):
